@@ -130,6 +130,25 @@ void Double_2_ieee10(Double inp, Byte* pDest, Boolean NeedsBig) {
     Buffer[6] &= 0x0f;
     if (!Denormal) {
         Buffer[6] |= 0x10;
+    } else {
+        /* denormal double: exponent is 2^(-1022) and there is no hidden one.  Each
+           of them is a normal number in extended format, so normalize (0.0 remains): */
+
+        Byte Any = 0;
+
+        for (z = 0; z < 7; z++) {
+            Any |= Buffer[z];
+        }
+        if (Any) {
+            Exponent++;
+            while (!(Buffer[6] & 0x10)) {
+                for (z = 6; z > 0; z--) {
+                    Buffer[z] = (Buffer[z] << 1) | (Buffer[z - 1] >> 7);
+                }
+                Buffer[0] <<= 1;
+                Exponent--;
+            }
+        }
     }
     for (z = 7; z >= 2; z--) {
         pDest[z] = ((Buffer[z - 1] & 0x1f) << 3) | ((Buffer[z - 2] & 0xe0) >> 5);
